@@ -793,8 +793,27 @@ def make_builtins(interp):
     def b_id(o):
         return id(o)
 
+    def _minmax(a, is_max):
+        if len(a) == 1:
+            a = list(interp.iter_(a[0]))
+        if not a:
+            raise PyExc(ValueError, ('empty sequence',))
+        if all(isinstance(x, (int, bool)) for x in a):
+            return (max if is_max else min)(a)
+        if all(isinstance(x, (int, bool, SymInt)) for x in a):
+            from .sym import zint
+            r = zint(a[0])
+            for x in a[1:]:
+                t = zint(x)
+                r = z3.If((t > r) if is_max else (t < r), t, r)
+            return SymInt(z3.simplify(r))
+        raise EngineLimit('min/max of symbolic values')
+
     def b_min(*a):
-        raise EngineLimit('min')
+        return _minmax(a, False)
+
+    def b_max(*a):
+        return _minmax(a, True)
 
     def b_print(*a, **k):
         return None
@@ -804,7 +823,7 @@ def make_builtins(interp):
         delattr=b_delattr, next=b_next, iter=b_iter, len=b_len, dict=b_dict, type=b_type, super=b_super, str=b_str,
         repr=b_repr, list=b_list, tuple=b_tuple, set=b_set, enumerate=b_enumerate, zip=b_zip, all=b_all, any=b_any,
         callable=b_callable, reversed=b_reversed, bool=b_bool, int=b_int, eval=b_eval, sorted=b_sorted,
-        range=b_range, id=b_id, print=b_print, object=object, property=I.Property, classmethod=I.ClassMethod,
+        range=b_range, id=b_id, print=b_print, min=b_min, max=b_max, object=object, property=I.Property, classmethod=I.ClassMethod,
         staticmethod=I.StaticMethod, NotImplemented=NotImplemented, frozenset=b_set,
         True_=True,
     )
